@@ -134,6 +134,12 @@ def catalogue(quick=True):
                      [block("rb", [rule(OR(AND(P("b", "lo"), P("a", "lo")), P("b", "hi")), [C("y", "s")]),
                                    rule(AND(OR(P("b", "hi"), P("a", "md")), P("b", "mid", "not")), [C("y", "m")]),
                                    rule(OR(P("b", "hi"), AND(P("a", "lo"), P("b", "lo"))), [C("y", "l")])])]))
+    # a missing input under a rule with several conclusions, a plain one before a hedged one: each conclusion takes the rule's degree
+    # (NaN) through its own hedges; the stored degree of the first must not leak into the next
+    cs.append(engine("nan-degree-several-conclusions", [in_a(), in_b()], [out_y(), out_z()],
+                     [block("rb", [rule(P("a", "lo"), [C("y", "s"), C("z", "n", "not"), C("y", "m", "not", "very")]),
+                                   rule(P("b", "hi"), [C("z", "p"), C("y", "l", "not")]),
+                                   rule(AND(P("a", "md"), P("b", "lo")), [C("y", "m"), C("z", "o", "not")], weight="1/2")])]))
     # rule weights that are not 1 (or 0) but lie within the library's comparison tolerance of it
     near = copy.deepcopy(ts_rules)
     for r, w in zip(near, ["1023/1024", "2047/2048", "1/1024", "4095/4096", "1/2048"]):
